@@ -66,6 +66,31 @@ impl MessageBody for NoClone {
     }
 }
 
+thread_local! {
+    static ZST_DROPS: RefCell<u32> = const { RefCell::new(0) };
+}
+/// zero-sized body type with a destructor (counted globally: it cannot carry a cell id)
+#[derive(Debug, Clone, PartialEq)]
+struct Zst;
+impl Drop for Zst {
+    fn drop(&mut self) {
+        ZST_DROPS.with(|d| *d.borrow_mut() += 1);
+    }
+}
+impl MessageBody for Zst {
+    fn byte_len(&self) -> usize {
+        0
+    }
+}
+fn wrapped_deque() -> std::collections::VecDeque<u8> {
+    let mut d = std::collections::VecDeque::with_capacity(4);
+    d.push_back(3u8);
+    d.push_back(4);
+    d.push_front(2);
+    d.push_front(1); // the ring buffer now wraps around: as_slices() yields two non-empty slices
+    d
+}
+
 fn tracked(kind: &str) -> bool {
     matches!(kind, "stA" | "stB" | "enT" | "enN" | "gen" | "ncl")
 }
@@ -95,6 +120,8 @@ fn make(kind: &str, cell: usize) -> Message {
         "enT" => m.with_content(EnumE::Tuple(3, 1 << 40, Tracker(cell))),
         "enN" => m.with_content(EnumE::Named { x: "sixsix".into(), inner: st_a(cell) }),
         "gen" => m.with_content(Gen { v: 10u16, w: 20u16, t: Tracker(cell) }),
+        "zst" => m.with_content(Zst),
+        "dq" => m.with_content(wrapped_deque()),
         "ncl" => {
             let mut m = m;
             m.set_content_non_clonable(NoClone(5, Tracker(cell)));
@@ -140,6 +167,12 @@ fn kind_of(v: &dyn Any) -> Option<&'static str> {
     if let Some(x) = v.downcast_ref::<NoClone>() {
         return Some(if x.0 == 5 { "ncl" } else { "?corrupted" });
     }
+    if v.downcast_ref::<Zst>().is_some() {
+        return Some("zst");
+    }
+    if let Some(x) = v.downcast_ref::<std::collections::VecDeque<u8>>() {
+        return Some(if x.iter().copied().eq([1u8, 2, 3, 4]) { "dq" } else { "?corrupted" });
+    }
     if v.downcast_ref::<u64>().is_some() {
         return Some("?u64");
     }
@@ -162,6 +195,8 @@ macro_rules! by_type {
             "EnumE" => $f::<EnumE>($($arg),*),
             "Gen<u16>" => $f::<Gen<u16>>($($arg),*),
             "NoClone" => $f::<NoClone>($($arg),*),
+            "Zst" => $f::<Zst>($($arg),*),
+            "VecDeque<u8>" => $f::<std::collections::VecDeque<u8>>($($arg),*),
             "u64" => $f::<u64>($($arg),*),
             other => panic!("unknown type {other}"),
         }
@@ -193,12 +228,19 @@ fn fail(step: usize, field: &str, exp: impl std::fmt::Debug, got: impl std::fmt:
 
 fn replay_one(beh: &[Value]) -> Result<u64, Value> {
     DROPS.with(|d| d.borrow_mut().clear());
+    ZST_DROPS.with(|d| *d.borrow_mut() = 0);
     let mut hold: Vec<Option<Message>> = (0..4).map(|_| None).collect();
     let mut cell_of: Vec<usize> = vec![0; 4]; // handle -> cell id (0 = none)
     let mut kinds: Vec<String> = vec![String::new()]; // cell id -> kind
     let mut out: Vec<(usize, Box<dyn Any>)> = Vec::new();
     let mut checks = 0u64;
     let check_counts = |kinds: &Vec<String>, hold: &Vec<Option<Message>>, cell_of: &Vec<usize>, out: &Vec<(usize, Box<dyn Any>)>, step: usize| -> Result<(), Value> {
+        // zero-sized bodies are counted globally
+        let zst_unheld = (1..kinds.len()).filter(|c| kinds[*c] == "zst" && !((0..hold.len()).any(|h| hold[h].is_some() && cell_of[h] == *c) || out.iter().any(|(x, _)| x == c))).count() as u32;
+        let zd = ZST_DROPS.with(|d| *d.borrow());
+        if zd != zst_unheld {
+            return Err(fail(step, "drop count of zero-sized body values", zst_unheld, zd));
+        }
         for c in 1..kinds.len() {
             if !tracked(&kinds[c]) {
                 continue;
@@ -323,6 +365,10 @@ fn replay_one(beh: &[Value]) -> Result<u64, Value> {
     // the client program ends: everything it still holds is dropped
     hold.clear();
     out.clear();
+    let nz = (1..kinds.len()).filter(|c| kinds[*c] == "zst").count() as u32;
+    if ZST_DROPS.with(|d| *d.borrow()) != nz {
+        return Err(fail(beh.len(), "final drop count of zero-sized body values", nz, ZST_DROPS.with(|d| *d.borrow())));
+    }
     for c in 1..kinds.len() {
         if tracked(&kinds[c]) && drops(c) != 1 {
             return Err(fail(beh.len(), &format!("final drop count of body value (kind {})", kinds[c]), 1, drops(c)));
